@@ -18,7 +18,7 @@ PROPERTY = "C15"
 LEVEL = "exploration"
 RULE = (
     "cases = (operation, backend flavour in {ndarray, xr.DataArray, xr.Dataset}, 1-6 argument arrays of 0-3 dims with sizes 1-4, "
-    "dtype in {int64, float64, float32, int8, uint8, int16, bool; narrow integers scaled so that sums/products overflow the input dtype}, axis/dim argument, take indices (int, list, negative), stack axis, concat "
+    "dtype in {int64, float64, float32, int8, uint8, int16, bool; narrow integers scaled so that sums/products overflow the input dtype}, axis/dim argument (integer axes also in negative form), take indices (int, list, negative), stack axis, concat "
     "axis, and for every function the library marks batchable (enumerated from Backend by reflection) every ordered partition of "
     "2-6 arguments into >=2 consecutive batches); oracle = NumPy on the raw data; non-trivial = >=3 arguments with >=2 different "
     "values, or a batch partition with unequal batch sizes, or an axis/dim argument that is not the first axis; distinct = "
@@ -82,7 +82,8 @@ def cases(draw):
     kind = draw(st.sampled_from(["multi", "multi", "binary", "take", "stack", "concat", "batch", "batch"]))
     flavour = draw(st.sampled_from(["np", "np", "da", "ds"]))
     dtype = draw(st.sampled_from(DTYPES))
-    c: dict = {"kind": kind, "flavour": flavour, "dtype": dtype}
+    # the integer axis / dim is given in its negative (count-from-the-end) form, which NumPy defines to mean the same axis
+    c: dict = {"kind": kind, "flavour": flavour, "dtype": dtype, "neg": draw(st.integers(0, 2)) == 0}
     if kind == "multi":
         c["op"] = draw(st.sampled_from(MULTI))
         if c["op"] in ("min", "max") and draw(st.integers(0, 4)) == 0:
@@ -257,9 +258,12 @@ def run_case(c) -> tuple[bool, list[str]]:
             return True, classes + ["agree"]
         if len(arrs) == 1:
             ax = c["axis"]
-            kw = {"axis": ax} if fl == "np" else {"dim": DIMS[ax]}
+            ax_arg = ax - len(shape) if (c.get("neg") and fl == "np") else ax
+            kw = {"axis": ax_arg} if fl == "np" else {"dim": DIMS[ax]}
             dims_exp = None if fl == "np" else [d for i, d in enumerate(DIMS[: len(shape)]) if i != ax]
-            r = _differential(what + f" axis={ax}", lambda: f(arrs[0], **kw), lambda: npf(raws[0], axis=ax), approx, dims_exp)
+            r = _differential(what + f" axis={ax_arg}", lambda: f(arrs[0], **kw), lambda: npf(raws[0], axis=ax), approx, dims_exp)
+            if ax_arg < 0:
+                classes.append("negative_axis")
             nt = ax > 0
         else:
             dims_exp = None if fl == "np" else DIMS[: len(shape)]
@@ -289,6 +293,9 @@ def run_case(c) -> tuple[bool, list[str]]:
             exp = lambda: np.squeeze(np.take(_raw(a), [idx], axis=ax), axis=ax)  # noqa: E731
             dims_exp = None if fl == "np" else [d for i, d in enumerate(DIMS[: len(shape)]) if i != ax]
         dim_arg = ax if (fl == "np" or len(str(idx)) % 2 == 0) else DIMS[ax]
+        if c.get("neg") and isinstance(dim_arg, int):
+            dim_arg = ax - len(shape)
+            classes.append("negative_axis")
         r = _differential(what + f" take({idx}, dim={dim_arg!r})", lambda: backends.take(a, idx, dim=dim_arg), exp, False, dims_exp)
         classes.append(r)
         nt = ax > 0 or (isinstance(idx, list) and len(idx) >= 2)
@@ -296,7 +303,10 @@ def run_case(c) -> tuple[bool, list[str]]:
         arrs = [_mk(d, shape, dt, fl) for d in c["data"]]
         ax = c["axis"]
         if fl == "np":
-            r = _differential(what + f" axis={ax}", lambda: backends.stack(*arrs, axis=ax), lambda: np.stack([_raw(x) for x in arrs], axis=ax))
+            ax_arg = ax - (len(shape) + 1) if c.get("neg") else ax
+            if ax_arg < 0:
+                classes.append("negative_axis")
+            r = _differential(what + f" axis={ax_arg}", lambda: backends.stack(*arrs, axis=ax_arg), lambda: np.stack([_raw(x) for x in arrs], axis=ax))
         else:
             dims_exp = DIMS[: len(shape)][:ax] + ["new"] + DIMS[: len(shape)][ax:]
             r = _differential(what + f" axis={ax}", lambda: backends.stack(*arrs, dim="new", axis=ax),
@@ -306,9 +316,12 @@ def run_case(c) -> tuple[bool, list[str]]:
     elif kind == "concat":
         arrs = [_mk(d, shape, dt, fl) for d in c["data"]]
         ax = c["axis"]
-        kw = {"axis": ax} if fl == "np" else {"dim": DIMS[ax]}
+        ax_arg = ax - len(shape) if (c.get("neg") and fl == "np") else ax
+        if ax_arg < 0:
+            classes.append("negative_axis")
+        kw = {"axis": ax_arg} if fl == "np" else {"dim": DIMS[ax]}
         dims_exp = None if fl == "np" else DIMS[: len(shape)]
-        r = _differential(what + f" axis={ax}", lambda: backends.concat(*arrs, **kw), lambda: np.concatenate([_raw(x) for x in arrs], axis=ax),
+        r = _differential(what + f" axis={ax_arg}", lambda: backends.concat(*arrs, **kw), lambda: np.concatenate([_raw(x) for x in arrs], axis=ax),
                           False, dims_exp)
         classes.append(r)
         nt = ax > 0 and len(arrs) >= 2
